@@ -148,8 +148,6 @@ Proof.
 Qed.
 
 (* ---- rendering of one range ---- *)
-Definition vokr (r : range) : Prop :=
-  (forall v, rmin r = Some v -> release v <> []) /\ (forall v, rmax r = Some v -> release v <> []).
 (* the recorded defect: `~=` is chosen although max is a post-release; excluded here, exhibited in tilde_refuted *)
 Definition tilde_safe (r : range) : Prop :=
   forall m M, rsimp r = None -> rmin r = Some m -> rmax r = Some M -> tilde_ok m M = true -> post M = None.
@@ -194,8 +192,8 @@ Qed.
 Lemma pveqb_true a b : Corr.P.T.VB.veqb a b = true -> vcmp a b = Eq.
 Proof. rewrite pveqb. destruct (vcmp a b); cbn; congruence. Qed.
 
-Lemma wf_simple op v : release v <> [] -> op <> OpCompat -> wf_clause (mkClause op v).
-Proof. intros H1 H2. split; [exact H1|]. cbn [c_op]. destruct op; try exact I. congruence. Qed.
+Lemma wf_simple op v : op <> OpCompat -> op <> OpEqStar -> op <> OpNeStar -> wf_clause (mkClause op v).
+Proof. intros H1 H2 H3. unfold wf_clause. cbn [c_op]. destruct op; try exact I; congruence. Qed.
 Lemma Forall1 {A} (P : A -> Prop) x : P x -> Forall P [x].
 Proof. intros H. constructor; [exact H | constructor]. Qed.
 Lemma Forall2' {A} (P : A -> Prop) x y : P x -> P y -> Forall P [x; y].
@@ -203,10 +201,10 @@ Proof. intros H1 H2. constructor; [exact H1 | apply Forall1; exact H2]. Qed.
 Lemma lower_op_ne (b : bool) : (if b then OpGe else OpGt) <> OpCompat. Proof. destruct b; discriminate. Qed.
 Lemma upper_op_ne (b : bool) : (if b then OpLe else OpLt) <> OpCompat. Proof. destruct b; discriminate. Qed.
 
-Lemma range_clauses_spec r : okr r -> simp_ok_range r -> vokr r -> tilde_safe r ->
+Lemma range_clauses_spec r : okr r -> simp_ok_range r -> tilde_safe r ->
   exists l, range_clauses r = Ret l /\ Forall wf_clause l /\ forall c, SE.pos c -> alt_mem c l = memr c r.
 Proof.
-  intros [Hne [Wlo Whi]] Hs [Vlo Vhi] Ht. unfold range_clauses, range_simplified. unfold simp_ok_range in Hs.
+  intros [Hne [Wlo Whi]] Hs Ht. unfold range_clauses, range_simplified. unfold simp_ok_range in Hs.
   destruct (rsimp r) as [k|] eqn:Esimp.
   { destruct Hs as [Wk Ek]. exists [k]. split; [reflexivity|]. split; [apply Forall1; exact Wk|].
     intros c _. unfold alt_mem. cbn [forallb]. unfold cl_mem. rewrite Ek. cbn [mem]. apply andb_true_r. }
@@ -215,30 +213,30 @@ Proof.
   - (* both bounds *)
     destruct (Corr.P.T.VB.veqb m M) eqn:Eeq.
     + apply pveqb_true in Eeq.
-      exists [mkClause OpEq m]. split; [reflexivity|]. split; [apply Forall1, wf_simple; [exact (Vlo m eq_refl) | discriminate]|].
+      exists [mkClause OpEq m]. split; [reflexivity|]. split; [apply Forall1, wf_simple; discriminate|].
       intros c _. unfold alt_mem. cbn [forallb]. rewrite cl_mem_eq, andb_true_r.
       apply CO.lt_iff in Hne. rewrite CO_compare_C, Eeq in Hne.
       destruct (imin r), (imax r); try discriminate Hne. cbv beta iota. f_equal. exact (cltb_eq_r c m M Aft Eeq).
     + assert (Fallback : exists l, Ret [mkClause (if imin r then OpGe else OpGt) m; mkClause (if imax r then OpLe else OpLt) M] = Ret l
                 /\ Forall wf_clause l /\ forall c, SE.pos c -> alt_mem c l = cleb (C m (if imin r then Bef else Aft)) c && cltb c (C M (if imax r then Aft else Bef))).
       { eexists. split; [reflexivity|]. split.
-        - apply Forall2'; apply wf_simple; [exact (Vlo m eq_refl) | apply lower_op_ne | exact (Vhi M eq_refl) | apply upper_op_ne].
+        - apply Forall2'; apply wf_simple; try discriminate; destruct (imin r), (imax r); discriminate.
         - intros c P. unfold alt_mem. cbn [forallb]. rewrite cl_mem_lower, cl_mem_upper, (pos_cltb c P), cleb_neginf, !andb_true_r. reflexivity. }
       destruct (negb (imin r) || imax r) eqn:Einc; [exact Fallback|].
       destruct (tilde_ok m M) eqn:Etil; [|exact Fallback].
       apply orb_false_elim in Einc as [Ei1 Ei2]. apply negb_false_iff in Ei1. rewrite Ei1, Ei2.
       destruct (tilde_ok_sound m M Etil (Ht m M Esimp Emin Emax Etil)) as (mm & x & Em & Hmm & Hc).
       exists [mkClause OpCompat m]. split; [reflexivity|]. split.
-      { apply Forall1. split; cbn [c_ver c_op]; [exact (Vlo m eq_refl)|]. rewrite Em, app_length. cbn. destruct mm; [congruence|cbn; lia]. }
+      { apply Forall1. unfold wf_clause. cbn [c_ver c_op]. rewrite Em, app_length. cbn. destruct mm; [congruence|cbn; lia]. }
       intros c _. unfold alt_mem. cbn [forallb]. unfold cl_mem. rewrite (from_pkg_compat m mm x Em Hmm). cbn [mem]. unfold memr, lb, ub. cbn [rmin rmax imin imax].
       rewrite andb_true_r. f_equal. exact (cltb_eq_r c _ M Bef Hc).
   - (* only min *)
     exists [mkClause (if imin r then OpGe else OpGt) m]. split; [reflexivity|]. split.
-    { apply Forall1, wf_simple; [exact (Vlo m eq_refl) | apply lower_op_ne]. }
+    { apply Forall1, wf_simple; destruct (imin r); discriminate. }
     intros c _. unfold alt_mem. cbn [forallb]. rewrite cl_mem_lower, andb_true_r. reflexivity.
   - (* only max *)
     exists [mkClause (if imax r then OpLe else OpLt) M]. split; [reflexivity|]. split.
-    { apply Forall1, wf_simple; [exact (Vhi M eq_refl) | apply upper_op_ne]. }
+    { apply Forall1, wf_simple; destruct (imax r); discriminate. }
     intros c _. unfold alt_mem. cbn [forallb]. rewrite cl_mem_upper, andb_true_r. reflexivity.
   - (* unbounded *)
     exists []. split; [reflexivity|]. split; [constructor|].
@@ -267,11 +265,11 @@ Proof.
   destruct s, s'; try discriminate. repeat split.
 Qed.
 
-Lemma union_simplified_two u l r : uranges u = [l; r] -> usimp u = None -> okr l -> okr r -> CO.lt (ub l) (lb r) -> vokr l -> vokr r ->
+Lemma union_simplified_two u l r : uranges u = [l; r] -> usimp u = None -> okr l -> okr r -> CO.lt (ub l) (lb r) ->
   exists o, union_simplified u = Ret o
     /\ match o with None => True | Some cl => Forall wf_clause cl /\ forall c, SE.pos c -> alt_mem c cl = memr c l || memr c r end.
 Proof.
-  intros Eu Es [Nl [Wl1 Wl2]] [Nr [Wr1 Wr2]] Hgap [Vl1 Vl2] [Vr1 Vr2]. unfold union_simplified. rewrite Es, Eu.
+  intros Eu Es [Nl [Wl1 Wl2]] [Nr [Wr1 Wr2]] Hgap. unfold union_simplified. rewrite Es, Eu.
   unfold memr, lb, ub in *.
   destruct (rmin l) as [lm|] eqn:Elm; cbn [Corr.P.T.is_none andb].
   { destruct (rmax r), (rmax l), (rmin r); eexists; split; try reflexivity; exact I. }
@@ -285,7 +283,7 @@ Proof.
   destruct (Corr.P.T.VB.veqb lM rm) eqn:Eeq.
   - (* != V *)
     apply pveqb_true in Eeq. eexists. split; [reflexivity|]. split.
-    { apply Forall1, wf_simple; [exact (Vl2 lM eq_refl) | discriminate]. }
+    { apply Forall1, wf_simple; discriminate. }
     intros c P. destruct (vcmp_of_lt_C _ _ _ _ Hgap) as [Hlt|(_ & Hs1 & Hs2)]; [congruence|].
     destruct (imax l); cbv iota in Hs1; [discriminate Hs1|]. destruct (imin r); cbv iota in Hs2; [discriminate Hs2|].
     clear Hs1 Hs2. unfold alt_mem. cbn [forallb]. unfold cl_mem. rewrite from_pkg_ne.
@@ -298,7 +296,7 @@ Proof.
     destruct (nestar_prefix_total lM rm Hlt) as (o & Eo). rewrite Eo. cbn [bind].
     destruct o as [p|]; eexists; (split; [reflexivity|]); [|exact I].
     destruct (nestar_prefix_sound lM rm p Eo) as (Hrel & Hlo & Hhi).
-    split. { apply Forall1, wf_simple; [exact Hrel | discriminate]. }
+    split. { apply Forall1. exact Hrel. }
     intros c P. unfold alt_mem. cbn [forallb]. unfold cl_mem. rewrite (from_pkg_nestar p Hrel).
     cbn [mem mems existsb uranges]. rewrite andb_true_r, orb_false_r.
     unfold memr, lb, ub. cbn [rmin rmax imin imax]. f_equal; f_equal.
@@ -308,19 +306,19 @@ Qed.
 
 (* ---- whole values ---- *)
 Definition ranges_of (s : spec) : list range := match s with SRange r => [r] | SUnion u => uranges u | _ => [] end.
-Definition render_ok (s : spec) : Prop := simp_ok s /\ Forall (fun r => vokr r /\ tilde_safe r) (ranges_of s).
+Definition render_ok (s : spec) : Prop := simp_ok s /\ Forall tilde_safe (ranges_of s).
 
 Lemma chain_Forall_okr l : forall lo, chain lo l -> Forall okr l.
 Proof. induction l as [|r l IH]; intros lo H; [constructor|]. apply chain_cons in H as (_ & Hr & Hc). constructor; [exact Hr | exact (IH _ Hc)]. Qed.
 
-Lemma mapM_clauses rs : Forall okr rs -> Forall simp_ok_range rs -> Forall (fun r => vokr r /\ tilde_safe r) rs ->
+Lemma mapM_clauses rs : Forall okr rs -> Forall simp_ok_range rs -> Forall tilde_safe rs ->
   exists ls, mapM_ range_clauses rs = Ret ls /\ Forall (Forall wf_clause) ls /\ length ls = length rs
              /\ forall c, SE.pos c -> existsb (alt_mem c) ls = mems c rs.
 Proof.
   induction rs as [|r rs IH]; intros Ho Hs Hv.
   - exists []. repeat split; constructor.
-  - inversion Ho as [|? ? Ho1 Ho2]; inversion Hs as [|? ? Hs1 Hs2]; inversion Hv as [|? ? [Hv1 Ht1] Hv2]; subst.
-    destruct (range_clauses_spec r Ho1 Hs1 Hv1 Ht1) as (l & El & Wl & Ml).
+  - inversion Ho as [|? ? Ho1 Ho2]; inversion Hs as [|? ? Hs1 Hs2]; inversion Hv as [|? ? Ht1 Hv2]; subst.
+    destruct (range_clauses_spec r Ho1 Hs1 Ht1) as (l & El & Wl & Ml).
     destruct (IH Ho2 Hs2 Hv2) as (ls & Els & Wls & Len & Mls).
     exists (l :: ls). split; [cbn [mapM_]; rewrite El; cbn [bind]; rewrite Els; reflexivity|].
     split; [constructor; assumption|]. split; [cbn; rewrite Len; reflexivity|].
@@ -333,8 +331,8 @@ Proof.
   intros Cs [Hs Hv]. destruct s as [| |r|u|?|?]; try contradiction.
   - exists TEmpty. repeat split.
   - exists (TAlts [[]]). split; [reflexivity|]. split; [split; [discriminate | repeat constructor]|]. reflexivity.
-  - inversion Hv as [|? ? [Hv1 Ht1] _]; subst.
-    destruct (range_clauses_spec r Cs Hs Hv1 Ht1) as (l & El & Wl & Ml).
+  - inversion Hv as [|? ? Ht1 _]; subst.
+    destruct (range_clauses_spec r Cs Hs Ht1) as (l & El & Wl & Ml).
     exists (TAlts [l]). split; [cbn [render]; rewrite El; reflexivity|]. split; [split; [discriminate | apply Forall1; exact Wl]|].
     intros c P. cbn [text_mem existsb mem]. rewrite (Ml c P). apply orb_false_r.
   - destruct Cs as [Hlen Hch]. destruct Hs as [Hsu Hsr]. cbn [ranges_of] in Hv.
@@ -350,8 +348,7 @@ Proof.
       intros c _. cbn [text_mem existsb alt_mem forallb]. unfold cl_mem. rewrite Ek. rewrite andb_true_r, orb_false_r. reflexivity.
     + destruct (uranges u) as [|l [|r [|x rest]]] eqn:Eu; try (cbn in Hlen; lia).
       * apply chain_cons in Hch as (_ & Hl & Hch). apply chain_cons in Hch as (Hgap & Hr & _).
-        inversion Hv as [|? ? [Hvl _] Hv']; inversion Hv' as [|? ? [Hvr _] _]; subst.
-        destruct (union_simplified_two u l r Eu Esu Hl Hr Hgap Hvl Hvr) as (o & Eo & Ho).
+        destruct (union_simplified_two u l r Eu Esu Hl Hr Hgap) as (o & Eo & Ho).
         destruct o as [cl|]; [|rewrite <- Eu in *; apply Fallback; exact Eo].
         destruct Ho as [Wcl Mcl]. exists (TAlts [cl]). split; [cbn [render]; rewrite Eo; reflexivity|].
         split; [split; [discriminate | apply Forall1; exact Wcl]|].
@@ -381,8 +378,8 @@ Theorem contains_spec s v : canon s -> render_ok s -> final v -> spec_contains s
 Proof.
   intros Cs [Hs Hv] Fv. assert (P : SE.pos (vcut v)) by apply lt_posinf.
   destruct s as [| |r|u|?|?]; try contradiction; try reflexivity.
-  - inversion Hv as [|? ? [Hv1 Ht1] _]; subst.
-    destruct (range_clauses_spec r Cs Hs Hv1 Ht1) as (l & El & Wl & Ml).
+  - inversion Hv as [|? ? Ht1 _]; subst.
+    destruct (range_clauses_spec r Cs Hs Ht1) as (l & El & Wl & Ml).
     cbn [spec_contains mem]. rewrite El. cbn [bind]. rewrite (set_sem_alt_mem l v Wl Fv), (Ml _ P). reflexivity.
   - destruct Cs as [Hlen Hch]. destruct Hs as [_ Hsr]. cbn [ranges_of] in Hv.
     destruct (mapM_clauses (uranges u) (chain_Forall_okr _ _ Hch) Hsr Hv) as (ls & Els & Wls & _ & Mls).
